@@ -214,8 +214,9 @@ pub struct KeyId(String);
 impl KeyId {
     /// Return the first 8 hex digits of the key id
     pub fn prefix(&self) -> String {
-        assert!(self.0.len() >= 8);
-        self.0[0..8].to_string()
+        // not a byte slice: a key id read from untrusted metadata need not
+        // be ASCII, and slicing inside a character would panic
+        self.0.chars().take(8).collect()
     }
 }
 
